@@ -15,9 +15,30 @@ pub struct Rt {
     pub detail: String,
     pub bytes: Option<Vec<u8>>,
     pub harness_problem: bool,
+    /// full path of the first difference for `mismatch|...` outcomes
+    pub diff: Option<String>,
 }
 
-fn first_diff(t: &Ty, a: &Val, b: &Val) -> String {
+/// dust-dds' deserializer on `bytes`, judged against `v` (for classify::decode_cause)
+pub fn probe_decode(dt: dust_dds::xtypes::dynamic_type::DynamicType<'static>, t: &Ty, v: &Val, bytes: &[u8]) -> crate::classify::Probe {
+    use crate::classify::Probe;
+    match dust_deserialize(dt, bytes) {
+        Run::Ok(d) => match read_data(t, &d) {
+            Ok(v2) => {
+                if v2 == *v {
+                    Probe::Ok
+                } else {
+                    Probe::Wrong(first_diff(t, v, &v2))
+                }
+            }
+            Err(_) => Probe::Other,
+        },
+        Run::Err(_) => Probe::Error,
+        Run::Panic(_) => Probe::Other,
+    }
+}
+
+pub fn first_diff(t: &Ty, a: &Val, b: &Val) -> String {
     match (t, a, b) {
         (Ty::Struct(s), Val::Struct(x), Val::Struct(y)) => {
             for (i, m) in s.members.iter().enumerate() {
@@ -83,6 +104,7 @@ pub fn round_trip(dt: dust_dds::xtypes::dynamic_type::DynamicType<'static>, t: &
                 detail: e,
                 bytes: None,
                 harness_problem: true,
+                diff: None,
             };
         }
     };
@@ -94,6 +116,7 @@ pub fn round_trip(dt: dust_dds::xtypes::dynamic_type::DynamicType<'static>, t: &
                 detail: e,
                 bytes: None,
                 harness_problem: false,
+                diff: None,
             };
         }
         Run::Panic(p) => {
@@ -102,6 +125,7 @@ pub fn round_trip(dt: dust_dds::xtypes::dynamic_type::DynamicType<'static>, t: &
                 detail: format!("{} at {}", p.msg, p.location),
                 bytes: None,
                 harness_problem: !p.in_dust(),
+                diff: None,
             };
         }
     };
@@ -112,6 +136,7 @@ pub fn round_trip(dt: dust_dds::xtypes::dynamic_type::DynamicType<'static>, t: &
             detail: format!("len {}", bytes.len()),
             bytes: Some(bytes),
             harness_problem: false,
+            diff: None,
         };
     }
     let pad = (bytes[3] & 3) as usize;
@@ -121,6 +146,7 @@ pub fn round_trip(dt: dust_dds::xtypes::dynamic_type::DynamicType<'static>, t: &
             detail: format!("options {:02x}", bytes[3]),
             bytes: Some(bytes),
             harness_problem: false,
+            diff: None,
         };
     }
     // independent parse (where the reference decoder supports the type and the bytes are well formed
@@ -143,6 +169,7 @@ pub fn round_trip(dt: dust_dds::xtypes::dynamic_type::DynamicType<'static>, t: &
             ),
             bytes: Some(bytes),
             harness_problem: false,
+            diff: None,
         };
     }
     let back = match dust_deserialize(dt, &bytes) {
@@ -153,6 +180,7 @@ pub fn round_trip(dt: dust_dds::xtypes::dynamic_type::DynamicType<'static>, t: &
                 detail: e,
                 bytes: Some(bytes),
                 harness_problem: false,
+                diff: None,
             };
         }
         Run::Panic(p) => {
@@ -161,6 +189,7 @@ pub fn round_trip(dt: dust_dds::xtypes::dynamic_type::DynamicType<'static>, t: &
                 detail: format!("{} at {}", p.msg, p.location),
                 bytes: Some(bytes),
                 harness_problem: !p.in_dust(),
+                diff: None,
             };
         }
     };
@@ -172,6 +201,7 @@ pub fn round_trip(dt: dust_dds::xtypes::dynamic_type::DynamicType<'static>, t: &
                     detail: String::new(),
                     bytes: Some(bytes),
                     harness_problem: false,
+                    diff: None,
                 }
             } else {
                 let d = first_diff(t, v, &v2);
@@ -180,6 +210,7 @@ pub fn round_trip(dt: dust_dds::xtypes::dynamic_type::DynamicType<'static>, t: &
                     detail: format!("first difference at {}", d),
                     bytes: Some(bytes),
                     harness_problem: false,
+                    diff: Some(d),
                 }
             }
         }
@@ -188,12 +219,9 @@ pub fn round_trip(dt: dust_dds::xtypes::dynamic_type::DynamicType<'static>, t: &
             detail: e,
             bytes: Some(bytes),
             harness_problem: false,
+            diff: None,
         },
     }
-}
-
-fn ver_name(rep: Rep) -> &'static str {
-    if rep.ver() == refenc::Ver::X1 { "XCDR1" } else { "XCDR2" }
 }
 
 /// Failure family: a deserializer that returns an error for bytes its own serializer produced and
@@ -219,8 +247,6 @@ pub fn report_failure(rep_out: &mut Report, t: &Ty, v: &Val, rep: Rep, rt: &Rt, 
     rep_out.stat("shrink_evaluations", evals as i128);
     let dt = build_type(&mt);
     let fin = round_trip(dt, &mt, &mv, rep);
-    let scope = ver_name(rep);
-    let feats = crate::classify::features(&mt, &mv);
     let ver = crate::classify::ver_name(rep.ver());
     let unclassified = || format!("unclassified|shape={}|val={}", root_class(&mt), value_class(&mt, &mv));
     let sig = if let Some(p) = fam.strip_prefix("de_panic|") {
@@ -230,12 +256,34 @@ pub fn report_failure(rep_out: &mut Report, t: &Ty, v: &Val, rep: Rep, rt: &Rt, 
     } else if let Some(x) = fam.strip_prefix("encapsulation|") {
         format!("roundtrip|encapsulation|rep={}|cause={}", ver, x)
     } else {
-        let cause = crate::classify::decode_cause(&feats, rep.ver(), crate::classify::Mode::RoundTrip)
-            .map(|c| c.to_string())
-            .unwrap_or_else(unclassified);
+        // value_not_restored (deserializer error or wrong value) / ser_error: verified root cause
+        use crate::classify::{BytesFrom, DecodeCase, Probe, decode_cause};
+        let outcome = if fin.key.starts_with("mismatch|") {
+            fin.diff.clone().map(Probe::Wrong).unwrap_or(Probe::Other)
+        } else if fin.key.starts_with("de_error|") {
+            Probe::Error
+        } else {
+            Probe::Other
+        };
+        let cause = match &fin.bytes {
+            Some(b) => decode_cause(
+                &DecodeCase {
+                    wt: &mt,
+                    wv: &mv,
+                    rt: &mt,
+                    rep,
+                    bytes: b,
+                    from: BytesFrom::DustWriter,
+                    outcome,
+                },
+                &mut |other| probe_decode(dt, &mt, &mv, other),
+            ),
+            None => None,
+        }
+        .map(|c| c.to_string())
+        .unwrap_or_else(unclassified);
         format!("roundtrip|{}|rep={}|cause={}", fam, ver, cause)
     };
-    let _ = scope;
     let what = format!(
         "{} {}: {} ; min shape {} ; type {} value {} bytes {}",
         rep.name(),
@@ -418,9 +466,9 @@ pub fn death_kind(death_class: &str) -> &'static str {
     }
 }
 
-/// deaths are consequences of one of the mis-parses named under `value_not_restored`
+/// No known finding kills the process any more (905bdfe, b28f9ea): a death is never classified.
 pub fn death_sig(death_class: &str, ver: &str) -> String {
-    format!("roundtrip|{}|rep={}|cause=misparse_consequence", death_kind(death_class), ver)
+    format!("roundtrip|{}|rep={}|cause=unclassified", death_kind(death_class), ver)
 }
 
 /// A case that kills the process (allocation of a mis-parsed length, CPU hang). The root cause is one
